@@ -738,7 +738,13 @@ def uniform_connected(draw, tier):
 def build_uniform(uc, perm=None):
     from hypergraphx import Hypergraph
     f = (lambda x: x) if perm is None else (lambda x: perm[x])
-    return Hypergraph(edge_list=[tuple(f(x) for x in e) for e in uc["edges"]])
+    edges = [tuple(f(x) for x in e) for e in uc["edges"]]
+    if len(edges) % 3 == 2 and not uc.get("slow"):
+        # a WEIGHTED hypergraph with unequal weights: the advertised functionals (clique
+        # expansion W, the HEC equation) have no weights, the answer is that of the structure
+        return Hypergraph(edge_list=edges, weighted=True,
+                          weights=[1 + (5 * j) % 4 for j in range(len(edges))])
+    return Hypergraph(edge_list=edges)
 
 
 def _seed(k):
